@@ -26,7 +26,11 @@ OBLIGATIONS = [
     "SkVerif.C17.classes_sorted_distinct_training_labels",
     "SkVerif.C17.avg_of_distributions_is_distribution",
     "SkVerif.C17.column_ensemble_avg_is_distribution",
+    "SkVerif.C17.forest_proba_entry",
+    "SkVerif.C17.forest_ragged_members_rejected",
+    "SkVerif.C17.forest_narrow_members_not_distribution",
     "SkVerif.C17.votes_normalised_is_distribution_partial",
+    "SkVerif.C17.boss_votes_is_distribution_partial",
     "SkVerif.C17.votes_empty_ensemble_not_distribution",
     "SkVerif.C17.votes_zero_weight_not_distribution",
     "SkVerif.C17.indiv_one_hot_is_distribution",
@@ -36,13 +40,11 @@ OBLIGATIONS = [
     "SkVerif.C17.predict_in_training_labels_same_type",
     "SkVerif.C17.ensemble_predict_in_training_labels_same_type",
     "SkVerif.C17.score_eq_fraction_matching",
-    "SkVerif.C17.forest_proba_entry",
-    "SkVerif.C17.forest_ragged_members_rejected",
-    "SkVerif.C17.tsf_proba_eq_mean_of_trees_on_features",
-    "SkVerif.C17.tsf_regressor_eq_mean_of_trees_on_features",
-    "SkVerif.C17.features_are_mean_var_slope",
     "SkVerif.C17.slope_eq_ols",
     "SkVerif.C17.var_is_sqrt_radicand",
+    "SkVerif.C17.features_are_mean_var_slope",
+    "SkVerif.C17.tsf_proba_eq_mean_of_trees_on_features",
+    "SkVerif.C17.tsf_regressor_eq_mean_of_trees_on_features",
     "SkVerif.C17.column_ensemble_eq_mean_of_members",
     "SkVerif.C17.column_ensemble_members_own_columns",
     "SkVerif.C17.intervals_within_series",
@@ -402,6 +404,8 @@ def _obs_clf(c):
         o["accuracies"] = [float(e.accuracy) for e in spies]
     else:
         spies = []
+        if algo == "muse":
+            o["member_classes"] = [list(clf.clf.classes_)]
 
     def grab(call, attr):
         for s in spies:
@@ -627,6 +631,9 @@ def run_real(c):
         return head + "pred=%s score=%s" % (o["pred_err"] or _labs(o["pred"]), o["score_err"] or show_rat(o["score"]))
     if o["proba_err"]:
         return head + "proba=" + o["proba_err"]
+    if getattr(o["proba"], "ndim", 0) == 2 and np.isnan(o["proba"]).any():
+        # no maximum exists in a NaN row: the property is silent on WHICH error predict / score raise
+        o = dict(o, pred_err="E:value" if o["pred_err"] else None, score_err="E:value" if o["score_err"] else None)
     if getattr(o["proba"], "ndim", 0) != 2:
         return head + "proba=E:shape%d" % getattr(o["proba"], "ndim", -1)
     return head + "proba=%s pred=%s score=%s" % (_mat(o["proba"]), o["pred_err"] or _labs(o["pred"]),
@@ -899,6 +906,16 @@ def oracle(c, out):
         return fails
     if o.get("proba_err") and o.get("member_raised"):
         return fails            # a member (black box) failed by itself: not sktime's aggregation
+    if kind == "clf" and c["algo"] == "stsf" and any(len(mc) < len(o["classes"]) for mc in o["member_classes"]):
+        P = o.get("proba")
+        good = (P is not None and not o.get("proba_err") and P.ndim == 2 and P.shape == (o["n_test"], len(o["classes"]))
+                and not np.isnan(P).any() and (np.abs(P.sum(axis=1) - 1) <= 1e-9).all() and (P >= -TOL).all())
+        if not good:
+            fails.append(("stsf:predict_proba-fails:member-bag-misses-a-class",
+                          "predict_proba %s; member class counts %r for %d classes" % (
+                              ("raised " + o["proba_err"]) if o.get("proba_err") else ("row 0 = %r" % (P[0].tolist(),)),
+                              [len(mc) for mc in o["member_classes"]], len(o["classes"]))))
+        return fails
     if o.get("proba_err"):
         if kind == "clf" and c["algo"] == "stsf" and any(len(mc) < len(o["classes"]) for mc in o["member_classes"]):
             fails.append(("stsf:predict_proba-fails:member-bag-misses-a-class",
@@ -913,6 +930,8 @@ def oracle(c, out):
     _check_predict(c, o, site, fails, proba_ok=ok)
     if not ok:
         return fails
+    if kind == "clf" and c["algo"] == "muse" and _lab_list(o["member_classes"][0]) != _lab_list(sorted(set(o["ytr"]))):
+        fails.append(("muse:columns-not-ordered-like-classes", "pipeline classes_ %r" % (o["member_classes"][0],)))
     if kind == "clf" and c["algo"] in ("tsf", "rise", "stsf"):
         if c["algo"] == "stsf" and any(len(mc) < len(o["classes"]) for mc in o["member_classes"]):
             fails.append(("stsf:predict_proba-fails:member-bag-misses-a-class", "member class counts %r" % [len(mc) for mc in o["member_classes"]]))
@@ -1193,25 +1212,25 @@ def gen_cases(tier, rng):
     cases += _rot(_base_small(), tier, rng, 6)
     cases += _rot(_feat_small(), tier, rng, 3)
     cases += _rot(_tsfit_small(), tier, rng, 3)
-    plan = [("tsf", 60, 700), ("rise", 25, 250), ("stsf", 14, 150), ("boss", 16, 160), ("cboss", 22, 220), ("tde", 10, 90),
-            ("muse", 6, 50), ("reg", 14, 120)]
+    plan = [("tsf", 60, 2000), ("rise", 25, 700), ("stsf", 14, 400), ("boss", 16, 400), ("cboss", 22, 600), ("tde", 10, 220),
+            ("muse", 6, 120), ("reg", 14, 400)]
     for algo, nq, nth in plan:
         for _ in range(nq if q else nth):
             cases.append(_clf_case(rng, algo, tier))
-    for _ in range(12 if q else 120):
+    for _ in range(12 if q else 300):
         cases.append(_indiv_case(rng))
-    for _ in range(30 if q else 350):
+    for _ in range(30 if q else 900):
         cases.append(_colens_case(rng))
-    for _ in range(60 if q else 1500):
+    for _ in range(60 if q else 3000):
         cases.append(_base_random(rng))
-    for _ in range(40 if q else 800):
+    for _ in range(40 if q else 2000):
         cases.append(_feat_random(rng))
-    for _ in range(20 if q else 200):
+    for _ in range(20 if q else 500):
         c = _clf_case(rng, "tsf", tier)
         c["kind"] = "tsffeat"
         c["tree"] = rng.randrange(c["params"]["n_estimators"])
         cases.append(c)
-    for _ in range(20 if q else 300):
+    for _ in range(20 if q else 800):
         L = rng.randrange(1, 40)
         cases.append({"kind": "tsfit", "L": L, "m": rng.choice([None, None, 0, 1, 2, 3, 4, 7, L, L + 1]), "nest": rng.randrange(1, 5),
                       "n": rng.randrange(2, 6), "rs": rng.randrange(1 << 20), "xseed": rng.randrange(1 << 20), "reg": rng.random() < 0.25})
